@@ -1,11 +1,11 @@
 #!/bin/bash
 # seed_part.sh k n: the seeded changes with index = k mod n, against this tree (quick tier); lines to seeded/REGRESSION.<k>.txt
 cd "$(dirname "$0")"/..
-V=$(pwd); k=$1; n=$2
+V=$(pwd); k=$1; n=$2; pat=${3:-}
 export SEED_SKIP_SUITE=1
 out=seeded/REGRESSION.$k.txt; : > $out
 i=0
-for d in seeded/*/; do
+for d in seeded/*$pat*/; do
   i=$((i+1)); [ $((i % n)) -eq $k ] || continue
   nm=$(basename $d); prop=${nm%%-*}; name=${nm#*-}
   extra=$(python3 -c "import json;m=json.load(open('$d/meta.json'));print(' '.join(p for p in m.get('check_results',{}) if p!='$prop'))")
